@@ -281,6 +281,49 @@ func (p c02) Run(w *mon.Worker, idx int) mon.Result {
 		tgt := []string{".a", ".zz", ".a", ".n.m"}[r.IntN(4)]
 		rhs := []string{".b", ".b + 1", "(.b | . * 2)", ".b // 0"}[r.IntN(4)]
 		form := r.IntN(4)
+		if r.IntN(3) == 0 {
+			// compound assignment for several context nodes: each node gets `own value op e`, once
+			op := []string{"+", "-", "*"}[r.IntN(3)]
+			ev := int64(1 + r.IntN(5))
+			var cexpr string
+			switch r.IntN(3) {
+			case 0:
+				cexpr = fmt.Sprintf(".items[] | .a %s= %d", op, ev)
+			case 1:
+				cexpr = fmt.Sprintf(".items[] | select(.b > 0) | .a %s= %d", op, ev)
+			default:
+				cexpr = fmt.Sprintf(".items | map(.a %s= %d) | .[]", op, ev)
+			}
+			cs["expr"], cs["doc"] = cexpr, d2.JSON()
+			res.Sig = fmt.Sprintf("ctxcompound|%s|%d", cexpr, n)
+			_, gs, yerr := evalDoc(cexpr, d2)
+			res.Evals++
+			if yerr != nil {
+				return fail("`%s` failed: %v", cexpr, yerr)
+			}
+			if len(gs) != n {
+				return fail("`%s`: %d results for %d context nodes", cexpr, len(gs), n)
+			}
+			for i, it := range items.A {
+				av, _ := it.Get("a")
+				val := av.I.Int64()
+				switch op {
+				case "+":
+					val += ev
+				case "-":
+					val -= ev
+				default:
+					val *= ev
+				}
+				want := it.Copy()
+				_ = ref.SetPath(want, []any{"a"}, ref.IntV(val))
+				if !ref.EqualNum(gs[i], want) {
+					return fail("`%s`: context node %d\n expected %s\n observed %s", cexpr, i, want, gs[i])
+				}
+			}
+			res.Nontrivial = true
+			return hold("every context node updated once")
+		}
 		var expr string
 		switch form {
 		case 0:
@@ -549,6 +592,29 @@ func (p c02) Run(w *mon.Worker, idx int) mon.Result {
 			}
 		default:
 			exprs = []string{"(" + estr + ") as $r | " + pstr + " = ($r // " + ref.Lit(alt).String() + ")", pstr + " = " + ref.Lit(alt).String()}
+		}
+		if r.IntN(4) == 0 && path.Pred == nil && !pathHasMultiAfterWrite(path) && len(targets) == 1 && strings.Contains(exprs[0], "//") {
+			// the same through setpath: its value expression only reads as well
+			var parts []string
+			okp := true
+			for _, st := range path.Steps {
+				switch st.Kind {
+				case "key":
+					parts = append(parts, ref.ExprString(st.Key))
+				case "idx":
+					if st.Idx < 0 {
+						okp = false
+					}
+					parts = append(parts, fmt.Sprint(st.Idx))
+				default:
+					okp = false
+				}
+			}
+			if okp {
+				exprs[0] = "setpath([" + strings.Join(parts, ", ") + "]; " + estr + " // " + ref.Lit(alt).String() + ")"
+				exprs[1] = pstr + " = " + ref.Lit(alt).String()
+				res.Tags = append(res.Tags, "rhsread:setpath")
+			}
 		}
 		cs["expr"], cs["same_as"] = exprs[0], exprs[1]
 		res.Sig = fmt.Sprintf("rhsread|%s|%s|%x", kind, pathShape(path), doc.ShapeHash())
